@@ -509,6 +509,21 @@ func (p *Prog) WritersOf(fieldKey string) map[string][]string {
 	return out
 }
 
+// PostPubWritersOf: like WritersOf but ignoring initialisation of not-yet-published objects.
+func (p *Prog) PostPubWritersOf(fieldKey string) map[string][]string {
+	out := map[string][]string{}
+	fi := p.E3().fields[fieldKey]
+	if fi == nil {
+		return out
+	}
+	for _, a := range fi.Accesses {
+		if a.Write && !a.PrePub {
+			out[p.FuncName(a.Fn)] = append(out[p.FuncName(a.Fn)], p.InstrPos(a.In))
+		}
+	}
+	return out
+}
+
 // OnlyIn checks that the keys of got are all in the allowed set and that every required
 // one is present.
 func (q *Q) OnlyIn(rule, key string, got map[string][]string, allowed []string, required []string) {
